@@ -70,6 +70,26 @@ int gen_id(Tape & t, const std::vector<int> & defined) {
 
 std::string prop_generate(Tape & t, int size) {
     mj::Value calls = mj::Value::array();
+    // Big-block scenario, decided independently of the position in the sequence (the branch that uses it sits late in the sequence, where a short
+    // tape is already exhausted and every draw is 0 - measured: 0 of 3000 cases had the scenario when it was drawn in place).
+    // The plan is decoded from the LAST 16 tape elements through a tape view of its own, so that the call sequence still decodes from
+    // the front exactly as before (the libFuzzer seed corpora stay meaningful) and is never starved by it.
+    struct { bool want, used; int id; std::string dtype; int64_t spd, sdf, left; uint64_t seed; int64_t s_start, s_incr, s_cnt; } big;
+    Tape tb(t.v + (t.n > 16 ? t.n - 16 : 0), t.n > 16 ? 16 : t.n);
+    Tape & t_seq = t;
+    { Tape & t = tb;
+    big.want = t.chance(2, 5); big.used = false;
+    big.id = 200 + (int) t.range(0, 40);
+    big.dtype = t.pick(std::vector<std::string>{"u8", "i16", "u4", "f32", "u1", "u32", "i32"});
+    big.spd = t.pick(std::vector<int64_t>{65544, 70000, 98304, 131072, 524288});
+    big.sdf = t.pick(std::vector<int64_t>{8, 64, 4096});
+    if (t.chance(1, 3)) { big.spd = t.pick(std::vector<int64_t>{524288, 1 << 22, 1 << 24}); if (t.chance(1, 2)) big.dtype = "f32"; }   // blocks of 2..64 MiB that are never filled
+    big.left = big.spd > 200000 ? t.range(100, 5000) : big.spd + t.range(1, 40000);
+    big.seed = t.u64() | 1;
+    if (big.spd > 200000) { big.s_start = t.range(0, 20); big.s_incr = t.pick(std::vector<int64_t>{1, 3, 7, 50}); big.s_cnt = 1; }
+    else { big.s_start = t.range(0, 50); big.s_incr = t.pick(std::vector<int64_t>{1, 3, 77, 1000, 70000}); big.s_cnt = t.range(1, 3); }
+    }
+    (void) t_seq;
     std::vector<int> sigs, srcs = {1};
     auto push = [&](const Call & c) { calls.push(call_json(c)); };
     bool twr = t.chance(1, 4);
@@ -139,22 +159,19 @@ std::string prop_generate(Tape & t, int size) {
                             Call w; w.f = "fsr"; w.a = {id, -1, t.pick(std::vector<int64_t>{1, 9, 10, 11, 95, 100, 101, 250, 1000, 1005, 3333}), (int64_t) t.raw()}; push(w);
                             wrote_samples = true;
                         }
-                        // One finished file in eight also gets a big-block signal (samples_per_data beyond the 65536-entry minimum of the
+                        // Two finished files in five also get a big-block signal (measured: at one in eight only ~0.1 % of the cases had one) (samples_per_data beyond the 65536-entry minimum of the
                         // reader's level-0 scratch buffers, more than one block of samples) and two statistics requests served from
                         // raw samples, small signal first: the reader must grow its shared buffers between the two (seeded/C10d).
-                        if (t.chance(1, 8) && !twr) {
-                            int idb = 200 + (int) t.range(0, 40);
-                            const DType & dtb = *dtype_by_name(t.pick(std::vector<std::string>{"u8", "i16", "u4", "f32", "u1", "u32", "i32"}).c_str());
-                            int64_t spd = t.pick(std::vector<int64_t>{65544, 70000, 98304, 131072, 524288});
-                            int64_t sdf = t.pick(std::vector<int64_t>{8, 64, 4096});
-                            if (t.chance(1, 3)) spd = t.pick(std::vector<int64_t>{524288, 1 << 22, 1 << 24});   // blocks of 2..64 MiB that are never filled
-                            // (spd is final here)
-                            Call d; d.f = "signal"; d.a = {idb, 0, 0, (int64_t) (spd > 200000 && t.chance(1, 2) ? dtype_by_name("f32")->code : dtb.code), 1000, spd, sdf, std::max<int64_t>(16, 2 * spd / sdf), 8, 0, 0};   // entries_per_summary * sdf >= spd, or the block size is aligned down d.s1 = gen_name(t, "b"); d.s2 = gen_name(t, "u"); push(d);
-                            sigs.push_back(idb);
-                            int64_t left = spd + t.range(1, 40000);
-                            if (spd > 200000) left = t.range(100, 5000);   // a block of up to 2 MiB that is never filled: the only DATA chunk is short
-                            while (left > 0) { int64_t nn = std::min<int64_t>(left, t.range(30000, 100000)); Call w; w.f = "fsr"; w.a = {idb, -1, nn, (int64_t) t.raw()}; push(w); left -= nn; }
-                            pending_big = idb; pending_big_short = spd > 200000;
+                        if (big.want && !twr && !big.used) {
+                            big.used = true;
+                            const DType & dtb = *dtype_by_name(big.dtype.c_str());
+                            Call d; d.f = "signal"; d.a = {big.id, 0, 0, (int64_t) dtb.code, 1000, big.spd, big.sdf, std::max<int64_t>(16, 2 * big.spd / big.sdf), 8, 0, 0};   // entries_per_summary * sdf >= spd, or the block size is aligned down
+                            d.s1.null = false; d.s2.null = false; push(d);
+                            sigs.push_back(big.id);
+                            int64_t left = big.left;
+                            uint64_t ds = big.seed;
+                            while (left > 0) { ds = mix64(ds, 77); int64_t nn = std::min<int64_t>(left, 30000 + (int64_t) (ds % 70001)); Call w; w.f = "fsr"; w.a = {big.id, -1, nn, (int64_t) (ds >> 8)}; push(w); left -= nn; }
+                            pending_big = big.id; pending_big_short = big.spd > 200000;
                         }
                         Call cl; cl.f = "wr_close"; cl.a = {0}; push(cl);
                         writer_open = false; sigs_on_disk = sigs;
@@ -164,8 +181,7 @@ std::string prop_generate(Tape & t, int size) {
                         push(c);
                         if (data_sig >= 0) { Call s1; s1.f = "rd_stats"; s1.a = {r, data_sig, 0, 1, 1, 0}; push(s1); }   // always inside: the constructed signal has >= 1 sample
                         Call s2; s2.f = "rd_stats";
-                        if (pending_big_short) s2.a = {r, pending_big, t.range(0, 20), t.pick(std::vector<int64_t>{1, 3, 7, 50}), 1, 0};   // >= 100 samples on disk
-                        else s2.a = {r, pending_big, t.range(0, 50), t.pick(std::vector<int64_t>{1, 3, 77, 1000, 70000}), t.range(1, 3), 0};
+                        s2.a = {r, pending_big, big.s_start, big.s_incr, big.s_cnt, 0};
                         c = s2; pending_big = -1;
                     }
                     break;
@@ -473,6 +489,8 @@ CaseOutcome prop_execute(const std::string & case_json) {
     oc.counters.push_back({"reader_calls_without_an_open_reader", x.rd_calls_no_reader});
     oc.counters.push_back({"reader_calls_on_fsr_signal_with_data", x.rd_calls_fsr_with_data});
     oc.counters.push_back({"windows_moved_to_a_signal_edge", x.edge_windows});
+    { long nb = 0; for (auto & cv : cs.at("calls").a) if (cv.get_str("f", "") == "signal" && cv.has("a") && cv.at("a").a.size() > 5 && cv.at("a").a[0].as_int() >= 200 && cv.at("a").a[0].as_int() <= 240 && cv.at("a").a[5].as_int() >= 65544) ++nb;
+      oc.counters.push_back({"big_block_scenarios", nb}); }
     oc.counters.push_back({"statistics_windows_ending_exactly_at_the_last_sample", x.edge_stats[1]});
     oc.counters.push_back({"statistics_windows_ending_one_sample_behind_the_signal", x.edge_stats[2]});
     oc.counters.push_back({"rd_open_skipped_because_writer_open", x.rd_open_skipped_writer_open});
